@@ -204,15 +204,15 @@ func (c *Ctx) randPw(n int, nulFree bool) []byte {
 var boundaryLens = []int{0, 1, 2, 7, 8, 9, 15, 16, 17, 31, 32, 33, 55, 56, 57, 63, 64, 65, 71, 72, 73, 74, 127, 128, 129, 253, 254, 255, 256, 257}
 
 type schemeInfo struct {
-	name             string
-	saltLens         []int // legal salt lengths to sample
-	saltAlpha        string
-	rounds           []uint32
-	maxPw            int
-	prefixes         []string
-	memory           []uint32
-	threads          []uint8
-	versions         []int
+	name      string
+	saltLens  []int // legal salt lengths to sample
+	saltAlpha string
+	rounds    []uint32
+	maxPw     int
+	prefixes  []string
+	memory    []uint32
+	threads   []uint8
+	versions  []int
 }
 
 var schemeInfos = []schemeInfo{
@@ -222,11 +222,11 @@ var schemeInfos = []schemeInfo{
 	{name: "sha1", saltLens: []int{0, 1, 8, 63, 64}, saltAlpha: cryptAlpha, rounds: []uint32{1, 2, 3, 10, 20, 4294967295}, maxPw: 300},
 	{name: "sunmd5", saltLens: []int{0, 1, 4, 8}, saltAlpha: cryptAlpha, rounds: []uint32{0, 1, 2, 7, 20}, maxPw: 255, prefixes: []string{"$md5,", "$md5$"}},
 	{name: "des", saltLens: []int{2}, saltAlpha: cryptAlpha, rounds: []uint32{0}, maxPw: 8},
-	{name: "desext", saltLens: []int{4}, saltAlpha: cryptAlpha, rounds: []uint32{1, 2, 3, 20}, maxPw: 300},
+	{name: "desext", saltLens: []int{4}, saltAlpha: cryptAlpha, rounds: []uint32{1, 2, 3, 20, 65537, 262145}, maxPw: 300},
 	{name: "bcrypt", saltLens: []int{22}, saltAlpha: cryptAlpha, rounds: []uint32{4, 5}, maxPw: 300, prefixes: []string{"$2$", "$2a$", "$2b$"}},
 	{name: "nthash", saltLens: []int{0}, saltAlpha: cryptAlpha, rounds: []uint32{0}, maxPw: 256},
 	{name: "argon2", saltLens: []int{11, 12, 13, 14, 16, 22, 43}, saltAlpha: stdAlpha, rounds: []uint32{1, 2, 3}, maxPw: 300,
-		prefixes: []string{"$argon2d$", "$argon2i$", "$argon2id$"}, memory: []uint32{8, 9, 16, 31, 33, 64}, threads: []uint8{1, 1, 2, 3, 4}, versions: []int{0x10, 0x13}},
+		prefixes: []string{"$argon2d$", "$argon2i$", "$argon2id$"}, memory: []uint32{8, 9, 16, 31, 33, 64}, threads: []uint8{1, 1, 2, 3, 4, 1, 2, 64, 65, 128, 192, 255}, versions: []int{0x10, 0x13}},
 }
 
 func (c *Ctx) validArgs(si schemeInfo, pwLen int) keyArgs {
@@ -425,7 +425,7 @@ func suiteGuards(c *Ctx) {
 			}
 			for _, m := range []uint32{0, 1, 7, 8, 9, 15, 16} {
 				for _, t := range []uint32{0, 1, 2} {
-					for _, p := range []uint8{0, 1, 2, 3} {
+					for _, p := range []uint8{0, 1, 2, 3, 63, 64, 65, 128, 192, 255} {
 						a := base()
 						a.memory, a.rounds, a.threads = m, t, p
 						emit(a, false)
